@@ -32,17 +32,17 @@ type World struct {
 	nextPort int
 	nextID   int
 
-	ProxyIP4 net.IP // source address of outbound sockets of the system under test
-	ProxyIP6 net.IP
-	Hosts    map[string][]net.IP // scripted resolver
-	BindErr  map[string]error    // "tcp/<addr>" or "udp/<addr>" as passed by the caller -> error
-	DialErr  map[string]error    // "ip:port" -> error returned by connect
-	DialHang map[string]bool     // "ip:port" -> the connect never completes: the dial returns only when its context is cancelled
-	UDPSocketFailAt int          // the n-th (1-based) outbound ListenPacket("udp","") fails; 0 = never
+	ProxyIP4        net.IP // source address of outbound sockets of the system under test
+	ProxyIP6        net.IP
+	Hosts           map[string][]net.IP // scripted resolver
+	BindErr         map[string]error    // "tcp/<addr>" or "udp/<addr>" as passed by the caller -> error
+	DialErr         map[string]error    // "ip:port" -> error returned by connect
+	DialHang        map[string]bool     // "ip:port" -> the connect never completes: the dial returns only when its context is cancelled
+	UDPSocketFailAt int                 // the n-th (1-based) outbound ListenPacket("udp","") fails; 0 = never
 	udpOutCount     int
-	TCPBuf   int // receive buffer size of TCP endpoints
-	TCPSndBuf int // send buffer size of TCP endpoints; 0 = no send queue (a write blocks until the peer's receive buffer takes the bytes)
-	UDPQueue int // datagrams a UDP socket queues before dropping
+	TCPBuf          int // receive buffer size of TCP endpoints
+	TCPSndBuf       int // send buffer size of TCP endpoints; 0 = no send queue (a write blocks until the peer's receive buffer takes the bytes)
+	UDPQueue        int // datagrams a UDP socket queues before dropping
 }
 
 var W *World
@@ -125,13 +125,13 @@ var ErrTransientAccept = os.NewSyscallError("accept4", syscall.EMFILE)
 // TCP
 
 type TCPListener struct {
-	w       *World
-	addr    *net.TCPAddr
-	backlog []*TCPConn
-	closed  bool
-	Owner   string
+	w          *World
+	addr       *net.TCPAddr
+	backlog    []*TCPConn
+	closed     bool
+	Owner      string
 	acceptErrs int // pending injected transient errors
-	Accepted int
+	Accepted   int
 }
 
 type TCPConn struct {
@@ -160,8 +160,8 @@ type TCPConn struct {
 	sq         []byte
 	finQueued  bool
 	lingerZero bool // SO_LINGER with a zero timeout
-	sndBuf     int // 0: the world's default
-	rcvBuf     int // 0: the world's default
+	sndBuf     int  // 0: the world's default
+	rcvBuf     int  // 0: the world's default
 }
 
 func (c *TCPConn) sndCap() int {
@@ -207,12 +207,12 @@ func (c *TCPConn) reset() {
 	c.peer.sq, c.peer.finQueued = nil, false
 }
 
-func (c *TCPConn) Name() string { return fmt.Sprintf("c%d/%s", c.ID, c.Side) }
-func (c *TCPConn) Peer() *TCPConn { return c.peer }
-func (c *TCPConn) IsClosed() bool { return c.closed }
+func (c *TCPConn) Name() string      { return fmt.Sprintf("c%d/%s", c.ID, c.Side) }
+func (c *TCPConn) Peer() *TCPConn    { return c.peer }
+func (c *TCPConn) IsClosed() bool    { return c.closed }
 func (c *TCPConn) WriteClosed() bool { return c.writeClosed || c.closed }
-func (c *TCPConn) GotRST() bool { return c.rst }
-func (c *TCPConn) Unread() int { return len(c.rbuf) }
+func (c *TCPConn) GotRST() bool      { return c.rst }
+func (c *TCPConn) Unread() int       { return len(c.rbuf) }
 
 func (w *World) bindConflictTCP(a *net.TCPAddr) bool {
 	for _, l := range w.tcpLn {
@@ -585,11 +585,13 @@ func (c *TCPConn) SetWriteDeadline(t time.Time) error {
 	return nil
 }
 
-func (c *TCPConn) SetKeepAlive(bool) error                  { return nil }
-func (c *TCPConn) SetKeepAlivePeriod(time.Duration) error   { return nil }
-func (c *TCPConn) SetNoDelay(bool) error                    { return nil }
+func (c *TCPConn) SetKeepAlive(bool) error                { return nil }
+func (c *TCPConn) SetKeepAlivePeriod(time.Duration) error { return nil }
+func (c *TCPConn) SetNoDelay(bool) error                  { return nil }
+
 // SetLinger(0): Close discards what has not been sent yet and resets the connection.
 func (c *TCPConn) SetLinger(sec int) error { c.lingerZero = sec == 0; return nil }
+
 // SetReadBuffer / SetWriteBuffer set this endpoint's buffer sizes (the send queue exists only for
 // endpoints with a send buffer size).
 func (c *TCPConn) SetReadBuffer(n int) error  { c.rcvBuf = n; return nil }
@@ -731,14 +733,14 @@ func LookupHost(host string) ([]string, error) {
 
 // Dialer mirrors the fields of net.Dialer the server may set.
 type Dialer struct {
-	Timeout       time.Duration
-	Deadline      time.Time
-	LocalAddr     net.Addr
-	DualStack     bool
-	FallbackDelay time.Duration
-	KeepAlive     time.Duration
-	Resolver      *net.Resolver
-	Control       func(network, address string, c syscall.RawConn) error
+	Timeout        time.Duration
+	Deadline       time.Time
+	LocalAddr      net.Addr
+	DualStack      bool
+	FallbackDelay  time.Duration
+	KeepAlive      time.Duration
+	Resolver       *net.Resolver
+	Control        func(network, address string, c syscall.RawConn) error
 	ControlContext func(ctx context.Context, network, address string, c syscall.RawConn) error
 }
 
@@ -921,28 +923,28 @@ type dgram struct {
 }
 
 type UDPConn struct {
-	w      *World
-	ID     int
-	Owner  string
-	local  *net.UDPAddr
-	dual   bool // wildcard dual-stack socket: IPv4 peers are reported in 16-byte form
-	q      []dgram
-	closed bool
-	rdl    time.Time
-	ClosedAt time.Duration
+	w          *World
+	ID         int
+	Owner      string
+	local      *net.UDPAddr
+	dual       bool // wildcard dual-stack socket: IPv4 peers are reported in 16-byte form
+	q          []dgram
+	closed     bool
+	rdl        time.Time
+	ClosedAt   time.Duration
 	Sent, Recv int
-	Dropped int
-	readErrs int // injected transient (non-timeout) read errors
-	fam      int // 4 / 6: opened as "udp4" / "udp6" (one address family only); 0: "udp"
+	Dropped    int
+	readErrs   int // injected transient (non-timeout) read errors
+	fam        int // 4 / 6: opened as "udp4" / "udp6" (one address family only); 0: "udp"
 }
 
 // InjectReadError makes the next ReadFrom fail once with a non-timeout error (ECONNREFUSED, as
 // after an ICMP port-unreachable).
 func (u *UDPConn) InjectReadError() { u.readErrs++ }
 
-func (u *UDPConn) Name() string { return fmt.Sprintf("u%d", u.ID) }
-func (u *UDPConn) IsClosed() bool { return u.closed }
-func (u *UDPConn) Queued() int { return len(u.q) }
+func (u *UDPConn) Name() string            { return fmt.Sprintf("u%d", u.ID) }
+func (u *UDPConn) IsClosed() bool          { return u.closed }
+func (u *UDPConn) Queued() int             { return len(u.q) }
 func (u *UDPConn) ReadDeadline() time.Time { return u.rdl }
 
 func (w *World) listenUDP(owner string, a *net.UDPAddr, key string) (*UDPConn, error) {
@@ -1166,6 +1168,51 @@ func (u *UDPConn) WriteTo(b []byte, addr net.Addr) (int, error) {
 }
 
 func (u *UDPConn) WriteToUDP(b []byte, addr *net.UDPAddr) (int, error) { return u.WriteTo(b, addr) }
+
+// The rest of net.UDPConn's datagram methods, in terms of the two above.
+func (u *UDPConn) ReadFromUDPAddrPort(b []byte) (int, netip.AddrPort, error) {
+	n, a, err := u.ReadFromUDP(b)
+	if a == nil {
+		return n, netip.AddrPort{}, err
+	}
+	return n, a.AddrPort(), err
+}
+
+func (u *UDPConn) WriteToUDPAddrPort(b []byte, addr netip.AddrPort) (int, error) {
+	return u.WriteTo(b, net.UDPAddrFromAddrPort(addr))
+}
+
+func (u *UDPConn) ReadMsgUDP(b, oob []byte) (n, oobn, flags int, addr *net.UDPAddr, err error) {
+	n, addr, err = u.ReadFromUDP(b)
+	return n, 0, 0, addr, err
+}
+
+func (u *UDPConn) ReadMsgUDPAddrPort(b, oob []byte) (n, oobn, flags int, addr netip.AddrPort, err error) {
+	n, addr, err = u.ReadFromUDPAddrPort(b)
+	return n, 0, 0, addr, err
+}
+
+func (u *UDPConn) WriteMsgUDP(b, oob []byte, addr *net.UDPAddr) (n, oobn int, err error) {
+	n, err = u.WriteTo(b, addr)
+	return n, 0, err
+}
+
+func (u *UDPConn) WriteMsgUDPAddrPort(b, oob []byte, addr netip.AddrPort) (n, oobn int, err error) {
+	n, err = u.WriteToUDPAddrPort(b, addr)
+	return n, 0, err
+}
+
+// Read / Write / RemoteAddr of an unconnected socket, as net.UDPConn has them.
+func (u *UDPConn) Read(b []byte) (int, error) {
+	n, _, err := u.ReadFromUDP(b)
+	return n, err
+}
+
+func (u *UDPConn) Write(b []byte) (int, error) {
+	return 0, opErr("write", "udp", u.local, nil, errors.New("destination address required"))
+}
+
+func (u *UDPConn) RemoteAddr() net.Addr { return nil }
 
 func (w *World) findUDP(a *net.UDPAddr) *UDPConn {
 	var wild *UDPConn
